@@ -76,6 +76,7 @@ class CtxRecorder:
         from corpus import labels_for
         n, m, rows, tag = table
         self.b = b
+        self._kind = b          # argument kinds rotate deterministically per behaviour (replayable)
         self.table = table
         self.olabels, self.plabels = labels_for(n, m, label_variant)
         self.opos = {x: i + 1 for i, x in enumerate(self.olabels)}
